@@ -69,3 +69,17 @@ pub fn ops() -> i32 {
     }
     0
 }
+
+/// stdin: one directive spelling per line (with its leading '.' or '#').
+/// stdout: spelling <TAB> Debug of the parsed Directive | NOPARSE | PANIC
+pub fn dirs() -> i32 {
+    for name in crate::util::read_stdin().lines() {
+        let r = std::panic::catch_unwind(|| document::directive(name));
+        match r {
+            Ok(Ok(d)) => println!("{}\t{:?}", name, d),
+            Ok(Err(_)) => println!("{}\tNOPARSE", name),
+            Err(_) => println!("{}\tPANIC", name),
+        }
+    }
+    0
+}
